@@ -13,6 +13,7 @@ from sismic.model import Event, InternalEvent, MetaEvent, Transition
 from sismic.clock import Clock, SimulatedClock
 
 from .encode import enc_event, enc_val, Unsupported
+from . import oracles
 
 
 class Log(list):
@@ -206,7 +207,8 @@ class ImplWorld:
         ctx.sort(key=lambda p: p[0])
         t = it.time
         return {'config': list(it.configuration), 'ctx': ctx, 'time': t,
-                'final': bool(it.final), 'unsupported': False}
+                'final': bool(it.final), 'legal': oracles.legal(it.statechart, list(it.configuration)) is True,
+                'unsupported': False}
 
     def world_json(self):
         return {'slots': [self.slot_json(i) for i in range(len(self.slots))],
